@@ -156,7 +156,7 @@ func init() {
 
 	// UnmarshalJSON: B[0] = data, I[0] = receiver slot.
 	reg("UnmarshalJSON", func(x *Ctx, op *Op, r *Result) {
-		in, chk := guard(op.bytes(0))
+		in, chk := x.input(op.bytes(0))
 		d := x.recv(op.int(0))
 		before := *d
 		x.call(r, func() { err := d.UnmarshalJSON(in); r.err(err); r.dec(before, *d) })
@@ -417,10 +417,21 @@ func init() {
 			r.bool(neg)
 			r.str(string(coef))
 			r.int(int64(exp))
-			rw := row{form: form, neg: neg, coef: coef, exp: exp, src: a, bufIdx: -1, valid: true}
-			if slot >= 0 && int(slot) < len(x.priv.bufs) {
-				rw.bufIdx = int(slot)
-				rw.bufGen = x.priv.bufGen[slot]
+			rw := row{form: form, neg: neg, coef: coef, exp: exp, src: a, seq: len(x.handed), valid: true}
+			if coef != nil && (slot < 0 || int(slot) >= len(x.priv.bufs)) {
+				// the caller owns a slice returned for a nil buffer: it may write
+				// to it later (Scribble) ...
+				r.keeps = append(r.keeps, &keep{what: "Decompose", bytes: coef, copyOf: string(coef), ctx: x, seq: len(x.handed)})
+			}
+			if op.int(1) == 1 && coef != nil && len(x.priv.bufs) > 0 {
+				// ... or recycle it as the buffer of a later call, the usual
+				// idiom  _, _, buf, _ = d.Decompose(buf[:0])
+				adopt := int(op.int(2)) % len(x.priv.bufs)
+				if adopt < 0 {
+					adopt = -adopt
+				}
+				x.priv.bufs[adopt] = coef[:0]
+				x.priv.bufGen[adopt]++
 			}
 			x.rows = append(x.rows, rw)
 		})
@@ -444,8 +455,9 @@ func init() {
 		if !rw.valid {
 			return
 		}
-		// the driver may only rely on parts whose buffer it did not hand out again
-		exclusive := rw.bufIdx < 0 || x.priv.bufGen[rw.bufIdx] == rw.bufGen
+		// the driver may only rely on parts whose memory it neither handed out
+		// again as a buffer nor wrote to itself
+		exclusive := x.untouchedSince(rw.seq, rw.coef)
 		d := x.recv(op.int(1))
 		x.call(r, func() {
 			err := d.Compose(rw.form, rw.neg, rw.coef, rw.exp)
@@ -469,7 +481,7 @@ func init() {
 	// Compose: I[0] = form, I[1] = neg, B[0] = coefficient, I[2] = exponent,
 	// I[3] = receiver slot.
 	reg("Compose", func(x *Ctx, op *Op, r *Result) {
-		in, chk := guard(op.bytes(0))
+		in, chk := x.input(op.bytes(0))
 		d := x.recv(op.int(3))
 		x.call(r, func() {
 			err := d.Compose(byte(op.int(0)), op.int(1) != 0, in, int32(op.int(2)))
